@@ -144,3 +144,287 @@ func TestVerifC12DilithiumMont(t *testing.T) {
 		}
 	})
 }
+
+// ---------------------------------------------------------------------------
+// Poly operations over the WHOLE documented input range of each function, on
+// the dispatched back-end (AVX2 where the CPU has it) and on the generic code
+// side by side, against integer arithmetic mod q.
+
+var c12PolyEdges = []uint32{0, 1, 2, Q - 1, Q, Q + 1, 2*Q - 1, 2 * Q, 2*Q + 1, 1 << 13, 1<<13 - 1, 1 << 19, 1<<19 - 1, 1 << 23, 1<<23 - 1, 1 << 28, 1<<28 + 1,
+	1<<31 - 1, 1 << 31, 1<<31 + 1, 3 << 30, 1<<32 - Q, 1<<32 - 2, 1<<32 - 1, 18*Q - 1, 18 * Q}
+
+// c12Coef draws one coefficient ≤ max (inclusive): an edge value that fits, max−d, or uniform.
+func c12Coef(t *rapid.T, max uint64, label string) uint32 {
+	switch rapid.IntRange(0, 3).Draw(t, label+".k") {
+	case 0, 1:
+		e := c12PolyEdges[rapid.IntRange(0, len(c12PolyEdges)-1).Draw(t, label+".e")]
+		if uint64(e) <= max {
+			return e
+		}
+		return uint32(max)
+	case 2:
+		d := uint64(rapid.IntRange(0, 3).Draw(t, label+".d"))
+		if d > max {
+			d = max
+		}
+		return uint32(max - d)
+	}
+	return uint32(rapid.Uint64Range(0, max).Draw(t, label+".u"))
+}
+
+func c12PolyBackend() string {
+	if c12HasAVX2() {
+		return "avx2"
+	}
+	return "generic-dispatch"
+}
+
+func TestVerifC12DilithiumPoly(t *testing.T) {
+	defer vlib.Done()
+	const q = uint64(Q)
+	const sub = "dilithium.poly"
+	const u32 = uint64(1)<<32 - 1
+	backend := c12PolyBackend()
+	mulBound := q << 32 // MulHat: each product strictly below 2^32·q
+	ops := []string{"MulHat", "MulHat", "MulHat", "Add", "Sub", "ReduceLe2Q", "Normalize", "NormalizeAssumingLe2Q", "MulBy2toD", "Exceeds", "Power2Round", "NTT-roundtrip", "PolyMul"}
+	vlib.Check(t, vlib.N(2500, 25000), func(t *rapid.T) {
+		op := rapid.SampledFrom(ops).Draw(t, "op")
+		vlib.Eval(sub)
+		vlib.Class(sub, "op="+op)
+		var a, b Poly
+		// generate exactly the documented domain of the operation
+		amax, bmax := u32, u32
+		switch op {
+		case "Sub":
+			bmax = 2*q - 1 // "assumes coefficients of b are less than 2q"
+		case "NormalizeAssumingLe2Q":
+			amax = 2*q - 1
+		case "MulBy2toD":
+			amax = 1<<(32-D) - 1
+		case "Exceeds", "Power2Round":
+			amax = q - 1 // normalized
+		case "NTT-roundtrip", "PolyMul":
+			amax, bmax = 2*q-1, 2*q-1 // "bounded by 2*Q"
+		}
+		nearBound := 0
+		for i := 0; i < N; i++ {
+			a[i] = c12Coef(t, amax, "a")
+			switch op {
+			case "MulHat":
+				// b over everything that keeps a·b below 2^32·q; often right below the bound
+				lim := u32
+				if a[i] != 0 {
+					if m := (mulBound - 1) / uint64(a[i]); m < lim {
+						lim = m
+					}
+				}
+				b[i] = c12Coef(t, lim, "b")
+				if p := uint64(a[i]) * uint64(b[i]); p >= mulBound-(uint64(a[i])<<2)-4 {
+					nearBound++
+				}
+			case "Add":
+				// the sum must fit a coefficient (no wrap is documented)
+				b[i] = c12Coef(t, u32-uint64(a[i]), "b")
+			case "Sub":
+				b[i] = c12Coef(t, bmax, "b")
+				if uint64(a[i])+2*q-uint64(b[i]) > u32 {
+					a[i] = uint32(u32 - 2*q)
+				}
+			default:
+				b[i] = c12Coef(t, bmax, "b")
+			}
+		}
+		fail := func(be, class, detail string) {
+			vlib.Report(t, "C12/dilithium.poly/"+op+"/"+be+"/"+class, detail)
+		}
+		mod := func(x uint64) uint64 { return x % q }
+		// run evaluates one back-end
+		for _, be := range []string{backend, "generic"} {
+			var p, p2 Poly
+			switch op {
+			case "MulHat":
+				if be == "generic" {
+					p.mulHatGeneric(&a, &b)
+				} else {
+					p.MulHat(&a, &b)
+				}
+				for i := range p {
+					// y ≤ 2q and y·2^32 ≡ a·b (mod q)
+					prod := new(big.Int).Mul(big.NewInt(int64(a[i])), big.NewInt(int64(b[i])))
+					l := new(big.Int).Lsh(big.NewInt(int64(p[i])), 32)
+					if uint64(p[i]) > 2*q || l.Sub(l, prod).Mod(l, big.NewInt(int64(q))).Sign() != 0 {
+						fail(be, "wrong-result", fmt.Sprintf("coefficient %d: a=%d b=%d (product %s < 2^32·q): MulHat gave %d", i, a[i], b[i], prod, p[i]))
+						return
+					}
+				}
+			case "Add":
+				if be == "generic" {
+					p.addGeneric(&a, &b)
+				} else {
+					p.Add(&a, &b)
+				}
+				for i := range p {
+					if uint64(p[i]) != uint64(a[i])+uint64(b[i]) {
+						fail(be, "wrong-result", fmt.Sprintf("coefficient %d: %d + %d gave %d", i, a[i], b[i], p[i]))
+						return
+					}
+				}
+			case "Sub":
+				if be == "generic" {
+					p.subGeneric(&a, &b)
+				} else {
+					p.Sub(&a, &b)
+				}
+				for i := range p {
+					if mod(uint64(p[i])) != mod(uint64(a[i])+2*q-uint64(b[i])) {
+						fail(be, "wrong-result", fmt.Sprintf("coefficient %d: %d − %d gave %d", i, a[i], b[i], p[i]))
+						return
+					}
+				}
+			case "ReduceLe2Q", "Normalize", "NormalizeAssumingLe2Q":
+				p = a
+				switch {
+				case op == "ReduceLe2Q" && be == "generic":
+					p.reduceLe2QGeneric()
+				case op == "ReduceLe2Q":
+					p.ReduceLe2Q()
+				case op == "Normalize" && be == "generic":
+					p.normalizeGeneric()
+				case op == "Normalize":
+					p.Normalize()
+				case be == "generic":
+					p.normalizeAssumingLe2QGeneric()
+				default:
+					p.NormalizeAssumingLe2Q()
+				}
+				for i := range p {
+					ok := mod(uint64(p[i])) == mod(uint64(a[i])) && uint64(p[i]) < 2*q
+					if op != "ReduceLe2Q" {
+						ok = uint64(p[i]) == mod(uint64(a[i]))
+					}
+					if !ok {
+						fail(be, "wrong-result", fmt.Sprintf("coefficient %d: %s(%d) gave %d", i, op, a[i], p[i]))
+						return
+					}
+				}
+			case "MulBy2toD":
+				if be == "generic" {
+					p.mulBy2toDGeneric(&a)
+				} else {
+					p.MulBy2toD(&a)
+				}
+				for i := range p {
+					if uint64(p[i]) != uint64(a[i])<<D {
+						fail(be, "wrong-result", fmt.Sprintf("coefficient %d: %d·2^D gave %d", i, a[i], p[i]))
+						return
+					}
+				}
+			case "Exceeds":
+				// true iff some centred representative has absolute value ≥ bound
+				bound := c12Coef(t, (q-1)/2+3, "bound")
+				var max uint64
+				for i := range a {
+					v := uint64(a[i])
+					if v > (q-1)/2 {
+						v = q - v
+					}
+					if v > max {
+						max = v
+					}
+				}
+				var got bool
+				if be == "generic" {
+					got = a.exceedsGeneric(bound)
+				} else {
+					got = a.Exceeds(bound)
+				}
+				if got != (max >= uint64(bound)) {
+					fail(be, "wrong-predicate", fmt.Sprintf("sup-norm %d, bound %d: Exceeds = %v", max, bound, got))
+					return
+				}
+			case "Power2Round":
+				if be != "generic" {
+					continue
+				}
+				a.Power2Round(&p, &p2)
+				for i := range a {
+					a0 := int64(p[i]) - int64(q)
+					if int64(p2[i])<<D+a0 != int64(a[i]) || a0 <= -(1<<(D-1)) || a0 > 1<<(D-1) {
+						fail(be, "wrong-result", fmt.Sprintf("Power2Round(%d) = (%d, %d)", a[i], p[i], p2[i]))
+						return
+					}
+				}
+			case "NTT-roundtrip":
+				// NTT: input < 2q, output < 18q; InvNTT: input < 2q, output < 2q and ≡ R·x
+				p = a
+				if be == "generic" {
+					p.nttGeneric()
+				} else {
+					p.NTT()
+				}
+				for i := range p {
+					if uint64(p[i]) >= 18*q {
+						fail(be, "out-of-bound", fmt.Sprintf("NTT output coefficient %d = %d ≥ 18q", i, p[i]))
+						return
+					}
+				}
+				p.reduceLe2QGeneric()
+				if be == "generic" {
+					p.invNttGeneric()
+				} else {
+					p.InvNTT()
+				}
+				for i := range p {
+					if uint64(p[i]) >= 2*q || mod(uint64(p[i])) != mod(mod(uint64(a[i]))*mod(1<<32)) {
+						fail(be, "wrong-result", fmt.Sprintf("InvNTT(NTT(x)) coefficient %d: x=%d gave %d (want ≡ x·2^32, < 2q)", i, a[i], p[i]))
+						return
+					}
+				}
+			case "PolyMul":
+				// InvNTT(MulHat(NTT a, NTT b)) ≡ a·b in Z_q[X]/(X^256+1) (schoolbook reference)
+				x, y := a, b
+				if be == "generic" {
+					x.nttGeneric()
+					y.nttGeneric()
+					p.mulHatGeneric(&x, &y)
+					p.invNttGeneric()
+				} else {
+					x.NTT()
+					y.NTT()
+					p.MulHat(&x, &y)
+					p.InvNTT()
+				}
+				var want [N]uint64
+				for i := 0; i < N; i++ {
+					ai := mod(uint64(a[i]))
+					for j := 0; j < N; j++ {
+						v := ai * mod(uint64(b[j])) % q
+						if i+j < N {
+							want[i+j] = (want[i+j] + v) % q
+						} else {
+							want[i+j-N] = (want[i+j-N] + q - v) % q
+						}
+					}
+				}
+				for i := range p {
+					if mod(uint64(p[i])) != want[i] || uint64(p[i]) >= 2*q {
+						fail(be, "wrong-product", fmt.Sprintf("coefficient %d of the negacyclic product: got %d want %d", i, p[i], want[i]))
+						return
+					}
+				}
+			}
+		}
+		vlib.Class(sub, "backend="+backend+"+generic")
+		if nearBound > 0 {
+			vlib.Class(sub, "mulhat-product-just-below-2^32q")
+		}
+		h := vlib.Hash64([]byte(op), func() []byte {
+			o := make([]byte, 0, 8*N)
+			for i := range a {
+				o = append(o, byte(a[i]), byte(a[i]>>8), byte(a[i]>>16), byte(a[i]>>24), byte(b[i]), byte(b[i]>>8), byte(b[i]>>16), byte(b[i]>>24))
+			}
+			return o
+		}())
+		vlib.NonTrivialH(sub, "", h)
+	})
+}
